@@ -327,6 +327,7 @@ def suites_for(pid, rng, tier):
     SG = ("sgroup", "sgroup_keyed")
     if pid == "C01":
         fixed("wake", CFG3, SCAN4 + ["race", "race_ok", "chain"])
+        fixed("wake-large", ("std", "alloc"), SCAN4, ks // 4, large=True)
         groups("wake-groups", ("std", "alloc"), FG + SG, ks)
         S.append(("wake-wait", "std", "scan", gen.gen_wait(rng, ks // 2, "w")))
         for c in ("std", "alloc"):
@@ -334,12 +335,14 @@ def suites_for(pid, rng, tier):
         return "wakes-nv", S
     if pid == "C02":
         fixed("own", CFG3, SCAN4 + ["race", "race_ok", "chain"], panic=0.08)
+        fixed("own-large", ("std",), SCAN4, ks // 4, panic=0.08, large=True)
         groups("own-groups", ("std", "alloc"), FG + SG, ks)
         S.append(("own-wait", "std", "scan", gen.gen_wait(rng, ks // 2, "w", panic=0.08)))
         small("own", ("std",), "try_join")
         return "own", S
     if pid == "C03":
         fixed("disc", CFG3, SCAN4 + ["race", "race_ok", "chain"])
+        fixed("disc-large", ("std",), SCAN4, ks // 4, large=True)
         groups("disc-groups", ("std", "alloc"), FG + SG, ks)
         S.append(("disc-wait", "alloc", "scan", gen.gen_wait(rng, ks // 2, "w")))
         return "polls-nv", S
@@ -385,6 +388,7 @@ def suites_for(pid, rng, tier):
         return "own", S
     if pid == "C16":
         fixed("selective", ("std",), SCAN4, 2 * k)
+        fixed("selective-large", ("std",), SCAN4, ks // 3, large=True)
         groups("selective-groups", ("std",), FG + SG, k)
         small("selective-join", ("std",), "join")
         small("selective-merge", ("std",), "merge")
@@ -401,6 +405,7 @@ def suites_for(pid, rng, tier):
         for c in CFG3:
             S.append(("conc", c, "scan", gen.gen_never(rng, c, SCAN4 + ["race", "race_ok"], k, "n" + c[0])))
         fixed("conc-mixed", ("std", "alloc"), SCAN4, ks)
+        fixed("conc-large", ("std",), SCAN4, ks // 4, large=True)
         groups("conc-groups", ("std", "alloc"), FG + SG, ks)
         S.append(("conc-nest(monitor only)", "std", "mon", gen.gen_nest(rng, ks // 2, "xs", combs=("nest_jj", "nest_jr", "nest_rj", "nest_jt", "nest_gj", "nest_mm", "nest_gm"))))   # chain and zip are outside C20's second sentence
         return "polls-nv", S
